@@ -283,9 +283,9 @@ def into_ (tb : ConvTable) : (t : Ty) → t.Host → Except Err SVal
   | .res _ _, .inr _ => .error .generic          -- `Err(e)` is raised as a Steel error
 
 /-- `SteelVal::from(x)` (the `From` impls; they differ from `IntoSteelVal` for `Option`). -/
-def intoViaFrom (tb : ConvTable) : (t : Ty) → t.Host → Except Err SVal
-  | .opt _, none => .ok (.bool true)             -- `impl From<Option<T>>`: `None` becomes `#t`
-  | .opt t, some x => intoViaFrom tb t x
+def intoViaFrom (tb : ConvTable) (noneAs : Bool) : (t : Ty) → t.Host → Except Err SVal
+  | .opt _, none => .ok (.bool noneAs)           -- `impl From<Option<T>>`: what `None` becomes (read from the code)
+  | .opt t, some x => intoViaFrom tb noneAs t x
   | t, x => into_ tb t x
 
 /-- `is_truthy` is false only for `#f` -/
